@@ -178,6 +178,7 @@ structure DrvSt where
   epInvalN : Nat := 0
   /-- split creation: the endpoint object dialled but not published yet -/
   epPending : Option EP.Ep := none
+  epLastPub : Nat := 0
 
 def boolTok? : String → Option Bool
   | "1" => some true | "0" => some false | _ => none
@@ -409,6 +410,13 @@ def handleEp (st : DrvSt) (toks : List String) : DrvSt × String :=
   let upd (s' : EP.St) (out : String) : DrvSt × String := ({ st with ep := s' }, out)
   match toks with
   | ["reset"] => upd EP.init "ok"
+  -- the tuning constants of the real pool, in ms: janitor period, TTL-refresh throttle, negative-cache lifetime
+  | ["consts", j, t, f] =>
+    match j.toNat?, t.toNat?, f.toNat? with
+    | some j, some t, some f =>
+      upd { s with janitorIv := EpDrv.ms j, ttlMin := EpDrv.ms t, failTtl := EpDrv.ms f,
+                   nextJanitor := s.now + EpDrv.ms j } "ok"
+    | _, _, _ => (st, "bad-op")
   | ["st"] => (st, EpDrv.digest s)
   | ["stx"] => (st, EpDrv.digestNoTime s)
   -- kernel conn-state entries of tuples no endpoint owns any more (after everything is closed): none
@@ -447,7 +455,7 @@ def handleEp (st : DrvSt) (toks : List String) : DrvSt × String :=
     | none => (st, "bad-op")
   | ["adv", dt] =>
     match dt.toNat? with
-    | some dt => upd (EP.advance EpDrv.nkeys (dt / 250 + 2) s (EpDrv.ms dt)) "ok"
+    | some dt => upd (EP.advance EpDrv.nkeys (EpDrv.ms dt / (s.janitorIv + 1) + 2) s (EpDrv.ms dt)) "ok"
     | none => (st, "bad-op")
   | ["inval", d] =>
     match d.toNat? with
@@ -480,6 +488,28 @@ def handleEp (st : DrvSt) (toks : List String) : DrvSt × String :=
     let missed := st.epSnap.filter fun e => !(s.eps e).dead && !(s.eps e).closed && !(s.eps e).survives
     if missed.isEmpty then ({ st with epSnap := [] }, s!"removed={st.epInvalN}")
     else (st, s!"model-would-also-retire={joinNat missed}")
+  -- one janitor pass step by step (parked at janitor.beforeClose): the tick, the table removals, the closes
+  | ["jtick", ms] =>
+    match ms.toNat? with
+    | some ms => upd { s with now := s.now + EpDrv.ms ms, nextJanitor := s.nextJanitor + s.janitorIv } "ok"
+    | none => (st, "bad-op")
+  | ["jremove", k, e] =>
+    match k.toNat?, e.toNat? with
+    | some k, some e =>
+      let E := s.eps e
+      if s.pool k = some e && (E.isExpired s.now || (!EP.genCurrent s E && !E.survives)) then
+        upd (EP.setPool s k none) "ok"
+      else (st, "model-would-not-expire")
+    | _, _ => (st, "bad-op")
+  | ["jclose", e] =>
+    match e.toNat? with
+    | some e => upd (EP.closeEp s e) "ok"
+    | none => (st, "bad-op")
+  | ["jend"] =>
+    let left := (List.range EpDrv.nkeys).filter fun k => match s.pool k with
+      | some e => (s.eps e).isExpired s.now || (!EP.genCurrent s (s.eps e) && !(s.eps e).survives)
+      | none => false
+    (st, if left.isEmpty then "ok" else s!"model-would-also-expire={joinNat left}")
   -- GetOrCreate's creation step by step (parked at create.beforePublish)
   | ["gocprep", k, sym, nat, owner, drain, d] =>
     match k.toNat?, boolTok? sym, nat.toNat?, EpDrv.optTok? owner, EpDrv.optTok? drain, d.toNat? with
@@ -491,8 +521,9 @@ def handleEp (st : DrvSt) (toks : List String) : DrvSt × String :=
     | _, _, _, _, _, _ => (st, "bad-op")
   | ["gocpub"] =>
     match st.epPending with
-    | some E => ({ st with ep := EP.publishEp s E, epPending := none }, s!"new {s.neps}")
+    | some E => ({ st with ep := EP.publishEp s E, epPending := none, epLastPub := s.neps }, s!"new {s.neps}")
     | none => (st, "bad-op")
+  | ["gocret"] => (st, s!"new {st.epLastPub}")
   | ["track", e, j] =>
     match e.toNat?, j.toNat? with
     | some e, some j => upd (EP.track s e j) "ok"
